@@ -282,6 +282,11 @@ def rule_h1_h2(ck, prog):
         ck.anchor_lost("C20-H1", "scpiheap_free: %d write sites" % n)
 
 
+def K_address_taken(prog, name):
+    from . import c01
+    return c01._address_taken(prog, name)
+
+
 def rule_h3(ck, prog):
     rec = prog.records.get("_scpi_error_info_heap_t")
     if not rec:
@@ -304,6 +309,16 @@ def rule_h3(ck, prog):
                "scpiheap_get_parts": {"SCPI_ResultError", "scpiheap_free"}, "scpiheap_init": {"SCPI_InitHeap"}}
     for callee, okc in allowed.items():
         callers = {g.name for g, c in prog.callers(callee)}
+        # a file-local helper that only the allowed functions (or other such helpers) call belongs to them
+        changed = True
+        while changed:
+            changed = False
+            for nm in sorted(callers - okc):
+                g_ = prog.fn(nm)
+                up = {h.name for h, _c in prog.callers(nm)} if g_ is not None and g_.static else set()
+                if up and not K_address_taken(prog, nm):
+                    callers = (callers - {nm}) | up
+                    changed = True
         st = "%s/callers#0" % callee
         if callers - okc:
             ck.violated("C20-H3", st, "libscpi/src/utils.c:0", "%s is called from %s (allowed: %s)" % (callee, sorted(callers - okc), sorted(okc)))
